@@ -6,7 +6,7 @@
    must have raised), unmerge / snapshot of an empty combined model, an unknown or consumed snapshot.
    Definitions only. *)
 From Coq Require Import List NArith Bool.
-From FIM Require Import Model.Cbm14Store Model.Cbm14Check Model.Cbm14Spec.
+From FIM Require Import Model.Cbm14Store Model.Cbm14Check Model.Cbm14Spec Model.Cbm14Abs.
 Import ListNotations.
 Open Scope N_scope.
 
@@ -115,4 +115,8 @@ Definition spec_case (c : case) : bool :=
   let adms := flat_map (fun g => match adm_of_view g (view_of g st) with Some A => [(g, A)] | None => [] end) gs in
   forallb (spec_hist adms hinit) hs.
 
-Definition check_case_both (c : case) : bool := check_case c && spec_case c.
+(* the initial store satisfies the (decidable) invariant of the refinement theorems and holds no combined graph yet *)
+Definition refine_hyp (c : case) : bool :=
+  let '(st, cbm, _, _) := c in rgoodb cbm st && negb (gexists cbm st).
+
+Definition check_case_both (c : case) : bool := check_case c && spec_case c && refine_hyp c.
